@@ -64,14 +64,20 @@ func (s *Server) RunUnix(path string, idleTimeout time.Duration, onBound func(st
 	}
 	arm := func(d time.Duration) {
 		disarm()
-		timer = time.AfterFunc(d, func() {
+		// The callback acts only if it is still the armed timer: a timer that
+		// fired just before a connection came and went (disarm + re-arm while
+		// its callback waited for mu) must not shut the listener down with no
+		// idle period since that connection closed.
+		var self *time.Timer
+		self = time.AfterFunc(d, func() {
 			mu.Lock()
 			defer mu.Unlock()
-			if active == 0 {
+			if timer == self && active == 0 {
 				shutdown = true
 				_ = ul.Close() // unblock Accept
 			}
 		})
+		timer = self
 	}
 	if idleTimeout > 0 {
 		grace := idleTimeout
